@@ -91,6 +91,37 @@ def _returns(body):
     return out
 
 
+def _returns_structured(body):
+    """Every return sits in (nested) if/else branches only - not in a loop, try or with."""
+    def rec(stmts):
+        for s in stmts:
+            if isinstance(s, (ast.FunctionDef, ast.AsyncFunctionDef, ast.ClassDef)):
+                continue
+            if isinstance(s, ast.If):
+                if not rec(s.body) or not rec(s.orelse):
+                    return False
+            elif not isinstance(s, ast.Return):
+                if _returns([s]):
+                    return False
+        return True
+    return rec(body)
+
+
+def _eliminate_returns(stmts, conv, cont):
+    """stmts followed by cont, with `return` replaced by conv(return) and the rest skipped."""
+    if not stmts:
+        return [_copy(x) for x in cont]
+    s, rest = stmts[0], stmts[1:]
+    if isinstance(s, ast.Return):
+        return conv(s)
+    if isinstance(s, ast.If) and _returns([s]):
+        k = _eliminate_returns(rest, conv, cont)
+        s.body = _eliminate_returns(s.body, conv, k) or [ast.copy_location(ast.Pass(), s)]
+        s.orelse = _eliminate_returns(s.orelse, conv, k)
+        return [s]
+    return [s] + _eliminate_returns(rest, conv, cont)
+
+
 _SIMPLE = (ast.Name, ast.Constant)
 
 
@@ -142,17 +173,31 @@ class Inliner:
     # -- resolution -----------------------------------------------------------
     def resolve(self, call, caller):
         fn = call.func
-        sname = caller.params[0] if (caller.cls is not None and caller.params and not caller.is_staticmethod) else None
-        if isinstance(fn, ast.Attribute) and isinstance(fn.value, ast.Name) and sname and fn.value.id == sname and caller.cls is not None:
-            for c in caller.cls.mro:
+        # the method whose `self` is visible here: the caller itself, or - for a closure that does not
+        # rebind the name - the enclosing method
+        owner = caller
+        while owner.parent is not None:
+            owner = owner.parent
+        sname = owner.params[0] if (owner.cls is not None and owner.params and not owner.is_staticmethod and not owner.is_classmethod) else None
+        if sname and owner is not caller:
+            g = caller
+            while g is not owner:
+                if sname in _bound_names(g.node) or sname in g.params + g.kwonly or sname in (g.vararg, g.kwarg):
+                    sname = None
+                    break
+                g = g.parent
+        if isinstance(fn, ast.Attribute) and isinstance(fn.value, ast.Name) and sname and fn.value.id == sname and owner.cls is not None:
+            for c in owner.cls.mro:
                 m = c.methods.get(fn.attr)
                 if m is not None:
                     # a subclass override would make the target ambiguous
-                    for sub in caller.cls.all_subclasses():
+                    for sub in owner.cls.all_subclasses():
                         if fn.attr in sub.methods and sub.methods[fn.attr] is not m:
                             return None, None
-                    if m.is_property or m.is_staticmethod or m.is_classmethod:
+                    if m.is_property or m.is_classmethod:
                         return None, None
+                    if m.is_staticmethod:
+                        return m, None
                     return m, ast.Name(id=sname, ctx=ast.Load())
                 if fn.attr in c.attrs:
                     return None, None
@@ -173,7 +218,7 @@ class Inliner:
 
     def eligible(self, callee, call, stack):
         n = callee.node
-        if callee.qual in stack or callee.is_generator or n.decorator_list:
+        if callee.qual in stack or callee.is_generator or [d for d in callee.decorators if d != "staticmethod"]:
             return False
         if isinstance(n, ast.AsyncFunctionDef):
             return False
@@ -267,15 +312,43 @@ class Inliner:
             return None
         rets = _returns(callee.node.body)
         last = callee.node.body[-1]
+        structured = False
         if mode == "stmt":
             if any(r is not last for r in rets):
-                return None
+                structured = True
         elif mode == "assign":
             if not (isinstance(last, ast.Return) and last.value is not None and all(r is last for r in rets)):
-                return None
+                structured = True
+            if not (isinstance(st.targets[0], ast.Name)):
+                if structured:
+                    return None
+        if structured and not _returns_structured(callee.node.body):
+            return None
         body = self.body_of(callee, call, recv, names, stack)
         if body is None:
             return None
+        if structured:
+            # early returns under if/else only: `return e` becomes `target = e` (or nothing) and the statements that
+            # would have followed move into the branches that fall through
+            if mode == "assign":
+                tname = st.targets[0].id
+
+                def conv(r):
+                    v = r.value if r.value is not None else ast.copy_location(ast.Constant(value=None), r)
+                    tg = ast.copy_location(ast.Name(id=tname, ctx=ast.Store()), r)
+                    return [ast.copy_location(ast.Assign(targets=[tg], value=v, type_comment=None), r)]
+                none = ast.copy_location(ast.Constant(value=None), st)
+                tg0 = ast.copy_location(ast.Name(id=tname, ctx=ast.Store()), st)
+                cont = [ast.copy_location(ast.Assign(targets=[tg0], value=none, type_comment=None), st)]
+            else:
+                def conv(r):
+                    if r.value is not None and not _simple(r.value):
+                        return [ast.copy_location(ast.Expr(value=r.value), r)]
+                    return []
+                cont = []
+            body = _eliminate_returns(body, conv, cont) or [ast.copy_location(ast.Pass(), st)]
+            self.expanded.append(callee.qual)
+            return body
         if mode == "stmt":
             if body and isinstance(body[-1], ast.Return):
                 tail = body[-1]
@@ -427,11 +500,18 @@ class _Snap:
             return self.pure(e.left, reads) and self.pure(e.right, reads)
         if isinstance(e, ast.Call) and isinstance(e.func, ast.Name) and e.func.id == "len" and len(e.args) == 1 and not e.keywords:
             return self.pure(e.args[0], reads)
+        if isinstance(e, ast.Call) and isinstance(e.func, ast.Attribute) and e.func.attr in self._OBSERVERS and not e.keywords \
+                and isinstance(e.func.value, ast.Name) and all(isinstance(a, ast.Constant) for a in e.args):
+            # x.startswith("...") and friends on a plain local / parameter: side-effect free observers of str / bytes
+            return self.pure(e.func.value, reads)
         return False
 
-    @staticmethod
-    def is_condition(e):
-        return isinstance(e, (ast.Compare, ast.BoolOp)) or (isinstance(e, ast.UnaryOp) and isinstance(e.op, ast.Not))
+    _OBSERVERS = ("startswith", "endswith", "isdigit", "isalpha", "isspace", "islower", "isupper")
+
+    @classmethod
+    def is_condition(cls, e):
+        return isinstance(e, (ast.Compare, ast.BoolOp)) or (isinstance(e, ast.UnaryOp) and isinstance(e.op, ast.Not)) \
+            or (isinstance(e, ast.Call) and isinstance(e.func, ast.Attribute) and e.func.attr in cls._OBSERVERS)
 
     def is_stable_alias(self, e):
         """`x = self.a.b` where neither a nor b is ever re-bound outside a
@@ -440,11 +520,19 @@ class _Snap:
         if not isinstance(e, ast.Attribute):
             return False
         base, chain = _chain(e)
-        return isinstance(base, ast.Name) and base.id in self.params and not self.binds.get(base.id) and all(self.stable(a) for a in chain)
+        if not isinstance(base, ast.Name) or not all(self.stable(a) for a in chain):
+            return False
+        if base.id in self.params and not self.binds.get(base.id):
+            return True
+        # or rooted at a local that is itself such an alias (server = channel.server; adj = server.adj)
+        return base.id in getattr(self, "stable_locals", ())
 
-    @staticmethod
-    def _logging(call):
+    @classmethod
+    def _logging(cls, call):
+        """calls that cannot change what a snapshot read: logging, total builtins, str/bytes observers"""
         base, chain = _chain(call.func)
+        if chain and chain[-1] in cls._OBSERVERS:
+            return True
         return "logger" in chain[:-1] or (isinstance(base, ast.Name) and base.id in ("len", "isinstance", "hasattr") and not chain)
 
     def kills(self, node, env):
@@ -482,7 +570,7 @@ class _Snap:
                 for c in x.comparators:
                     if isinstance(c, ast.Name) and c.id == name:
                         return True
-            if isinstance(x, ast.Call):
+            if isinstance(x, ast.Call) and not (isinstance(x.func, ast.Attribute) and x.func.attr in _Snap._OBSERVERS):
                 for y in ast.walk(x):
                     if isinstance(y, ast.Name) and y.id == name:
                         return True
@@ -531,6 +619,10 @@ class _Snap:
                 setattr(s, fld, self.subst(e, henv))
             if isinstance(s, (ast.With, ast.AsyncWith)):
                 for it in s.items:
+                    henv = dict(inner)
+                    for nm in self.kills(it.context_expr, henv):
+                        henv.pop(nm, None)
+                    it.context_expr = self.subst(it.context_expr, henv)
                     for nm in self.kills(it.context_expr, inner):
                         inner.pop(nm, None)
             if isinstance(s, (ast.If, ast.While)):
@@ -549,6 +641,8 @@ class _Snap:
             if isinstance(s, ast.Assign) and len(s.targets) == 1 and isinstance(s.targets[0], ast.Name):
                 nm = s.targets[0].id
                 reads = []
+                if self.binds.get(nm) == 1 and nm not in self.params and self.is_stable_alias(s.value):
+                    self.__dict__.setdefault("stable_locals", set()).add(nm)
                 if self.binds.get(nm) == 1 and nm not in self.params and (self.is_condition(s.value) or (nm not in self.keep_names and self.is_stable_alias(s.value))) and self.pure(s.value, reads):
                     env[nm] = (s.value, reads)
 
@@ -673,6 +767,80 @@ def _rename_safe(fnode, old, new):
     return True
 
 
+def _merge_safe(fnode, old, new):
+    """May local `old` be renamed to the already existing local `new`?  Yes when
+    the two never hold a needed value at the same time: at every binding of one
+    the other is dead (classic live-range test on the CFG), neither is a
+    parameter, global, closure variable or used in a nested scope."""
+    from .cfg import CFG
+    for n in ast.walk(fnode):
+        if isinstance(n, ast.arg) and n.arg in (old, new):
+            return False
+        if isinstance(n, (ast.Global, ast.Nonlocal)) and (old in n.names or new in n.names):
+            return False
+        if isinstance(n, ast.ExceptHandler) and n.name in (old, new):
+            return False
+        if n is not fnode and isinstance(n, (ast.FunctionDef, ast.AsyncFunctionDef, ast.Lambda, ast.ListComp, ast.SetComp, ast.DictComp, ast.GeneratorExp)):
+            if any(isinstance(m, ast.Name) and m.id in (old, new) for m in ast.walk(n)):
+                return False
+    bound = _bound_names(fnode)
+    if old not in bound or new not in bound:
+        return False
+    try:
+        g = CFG(fnode, "?")
+    except Exception:
+        return False
+    use = {}
+    define = {}
+    for n in g.nodes:
+        a = n.ast
+        u, d = set(), set()
+        if a is not None:
+            if n.kind == "iter":
+                roots_use, roots_def = [], [a.target]
+            elif n.kind == "with_enter":
+                roots_use = [i.context_expr for i in a.items]
+                roots_def = [i.optional_vars for i in a.items if i.optional_vars is not None]
+            elif n.kind in ("with_exit", "dispatch", "handler", "join"):
+                roots_use, roots_def = [], []
+            elif n.kind == "stmt" and isinstance(a, (ast.FunctionDef, ast.AsyncFunctionDef, ast.ClassDef)):
+                roots_use, roots_def = [], []
+            else:
+                roots_use, roots_def = [a], [a]
+            for r in roots_use:
+                for m in ast.walk(r):
+                    if isinstance(m, ast.Name) and m.id in (old, new) and isinstance(m.ctx, ast.Load):
+                        u.add(m.id)
+                    if isinstance(m, ast.AugAssign) and isinstance(m.target, ast.Name) and m.target.id in (old, new):
+                        u.add(m.target.id)
+            for r in roots_def:
+                for m in ast.walk(r):
+                    if isinstance(m, ast.Name) and m.id in (old, new) and isinstance(m.ctx, (ast.Store, ast.Del)):
+                        d.add(m.id)
+        use[n.id], define[n.id] = u, d
+    live_out = {n.id: set() for n in g.nodes}
+    changed = True
+    while changed:
+        changed = False
+        for n in reversed(g.nodes):
+            out = set()
+            for (sx, _) in n.succ:
+                out |= use[sx.id] | (live_out[sx.id] - define[sx.id])
+            if out != live_out[n.id]:
+                live_out[n.id] = out
+                changed = True
+    for n in g.nodes:
+        if old in define[n.id] and new in live_out[n.id]:
+            return False
+        if new in define[n.id] and old in live_out[n.id]:
+            return False
+    # both must be dead on entry (no read before a binding)
+    ent = use[g.entry.id] | live_out[g.entry.id]
+    if old in ent or new in ent:
+        return False
+    return True
+
+
 def _rename(fnode, old, new):
     for n in ast.walk(fnode):
         if isinstance(n, ast.Name) and n.id == old:
@@ -692,6 +860,35 @@ def alpha_normalise(func, table):
     node = None
     renames = {}
     cur = func.node
+    # parameter copies introduced by the inliner (`line__h1 = line`): when the source is dead afterwards the copy
+    # and the source are one variable
+    if getattr(func, "inlined_from", None):
+        for _ in range(10):
+            hit = None
+            for n in walk_own(cur):
+                if isinstance(n, ast.Assign) and len(n.targets) == 1 and isinstance(n.targets[0], ast.Name) and "__" in n.targets[0].id \
+                        and isinstance(n.value, ast.Name) and n.value.id != n.targets[0].id and _merge_safe(cur, n.targets[0].id, n.value.id):
+                    hit = (n.targets[0].id, n.value.id)
+                    break
+            if hit is None:
+                break
+            if node is None:
+                node = _copy(func.node)
+                cur = node
+            _rename(cur, hit[0], hit[1])
+            renames[hit[0]] = hit[1]
+
+            class Drop(ast.NodeTransformer):
+                def visit_Assign(self, n2):
+                    if len(n2.targets) == 1 and isinstance(n2.targets[0], ast.Name) and isinstance(n2.value, ast.Name) and n2.targets[0].id == n2.value.id:
+                        return None
+                    return n2
+
+                def visit_FunctionDef(self, n2):
+                    if n2 is cur:
+                        self.generic_visit(n2)
+                    return n2
+            Drop().visit(cur)
     # parameters by position (same arity only; keyword callers are resolved on
     # the original function by the call graph, not on this copy)
     a = cur.args
@@ -717,7 +914,7 @@ def alpha_normalise(func, table):
         for (_, old, new) in todo:
             if old in renames.values() and False:
                 continue
-            if _rename_safe(cur, old, new):
+            if _rename_safe(cur, old, new) or _merge_safe(cur, old, new):
                 if node is None:
                     node = _copy(func.node)
                     cur = node
@@ -927,6 +1124,149 @@ def outline_reference_temps(func, ref_keys):
         block(node.body)
         if len(todo) == n0:
             break
+    if not changed[0]:
+        return func
+    ast.fix_missing_locations(node)
+    nf = Func(func.qual, node, func.module, func.cls, func.parent)
+    nf.inlined_from = list(getattr(func, "inlined_from", []))
+    return nf
+
+
+# ---------------------------------------------------------------------------
+# conditional expressions in statement position
+# ---------------------------------------------------------------------------
+def split_conditional_expressions(func):
+    """`x = A if c else B` -> `if c: x = A  else: x = B` (same for `return` and
+    expression statements, nested conditional expressions included).  Exact:
+    the test is evaluated first either way and exactly one arm afterwards."""
+    if not any(isinstance(n, ast.IfExp) for n in walk_own(func.node)):
+        return func
+    node = _copy(func.node)
+    changed = [False]
+
+    def conv(s):
+        v = getattr(s, "value", None)
+        if isinstance(s, (ast.Assign, ast.Return, ast.Expr)) and isinstance(v, ast.IfExp):
+            if isinstance(s, ast.Assign) and not all(isinstance(t, ast.Name) for t in s.targets):
+                return None  # target sub-expressions would be evaluated after the arms either way; keep it simple
+            a, b = _copy(s), _copy(s)
+            a.value, b.value = v.body, v.orelse
+            new = ast.If(test=v.test, body=block([a]), orelse=block([b]))
+            ast.copy_location(new, s)
+            changed[0] = True
+            return new
+        return None
+
+    def block(body):
+        out = []
+        for s in body:
+            r = conv(s)
+            if r is not None:
+                out.append(r)
+                continue
+            for fld in ("body", "orelse", "finalbody"):
+                sub = getattr(s, fld, None)
+                if isinstance(sub, list) and sub and isinstance(sub[0], ast.stmt) and not isinstance(s, (ast.FunctionDef, ast.AsyncFunctionDef, ast.ClassDef)):
+                    setattr(s, fld, block(sub))
+            if isinstance(s, ast.Try):
+                for h in s.handlers:
+                    h.body = block(h.body)
+            out.append(s)
+        return out
+    node.body = block(node.body)
+    if not changed[0]:
+        return func
+    ast.fix_missing_locations(node)
+    nf = Func(func.qual, node, func.module, func.cls, func.parent)
+    nf.inlined_from = list(getattr(func, "inlined_from", []))
+    return nf
+
+
+# ---------------------------------------------------------------------------
+# any()/all() over a generator expression in an `if` test
+# ---------------------------------------------------------------------------
+def loops_from_quantifiers(func):
+    """`if any(P(x) for x in xs): S  else: E`  ->  `for x in xs: if P(x): S; break` + `else: E`
+    (and the three variants with `all` / `not`).  Exact: the generator stops at
+    the first witness either way, S runs after P(x) held for that x and nothing
+    else was evaluated, E runs iff no witness exists.  The bound variable gets a
+    fresh name when the function uses that name elsewhere."""
+    def quant(test):
+        neg = False
+        t = test
+        while isinstance(t, ast.UnaryOp) and isinstance(t.op, ast.Not):
+            neg = not neg
+            t = t.operand
+        if isinstance(t, ast.Call) and isinstance(t.func, ast.Name) and t.func.id in ("any", "all") and len(t.args) == 1 and not t.keywords \
+                and isinstance(t.args[0], (ast.GeneratorExp, ast.ListComp)) and len(t.args[0].generators) == 1 and not t.args[0].generators[0].is_async:
+            return t.func.id, neg, t.args[0]
+        return None
+    if not any(isinstance(n, ast.If) and quant(n.test) for n in walk_own(func.node)):
+        return func
+    node = _copy(func.node)
+    names = _all_names(node)
+    counter = [0]
+    changed = [False]
+
+    def conv(s):
+        q = quant(s.test)
+        if q is None:
+            return None
+        kind, neg, gen = q
+        g = gen.generators[0]
+        # the witness condition and which arm runs on a witness
+        if kind == "any":
+            witness = gen.elt
+            on_witness, otherwise = (s.orelse, s.body) if neg else (s.body, s.orelse)
+        else:
+            witness = ast.copy_location(ast.UnaryOp(op=ast.Not(), operand=gen.elt), gen.elt)
+            on_witness, otherwise = (s.body, s.orelse) if neg else (s.orelse, s.body)
+        # bound variables: fresh names where the function uses the name outside this comprehension
+        inside = {m.id for m in ast.walk(gen) if isinstance(m, ast.Name)}
+        tnames = [m.id for m in ast.walk(g.target) if isinstance(m, ast.Name)]
+        outside = {m.id for m in ast.walk(node) if isinstance(m, ast.Name) and not any(m is y for y in ast.walk(gen))}
+        ren = {}
+        for tn in tnames:
+            if tn in outside:
+                counter[0] += 1
+                ren[tn] = "%s__q%d" % (tn, counter[0])
+        if ren:
+            for m in ast.walk(gen):
+                if isinstance(m, ast.Name) and m.id in ren:
+                    m.id = ren[m.id]
+        cond = witness
+        for c in g.ifs:
+            cond = ast.copy_location(ast.BoolOp(op=ast.And(), values=[c, cond]), c)
+        brk = ast.copy_location(ast.Break(), s)
+        inner = ast.copy_location(ast.If(test=cond, body=block(list(on_witness)) + [brk], orelse=[]), s)
+        loop = ast.copy_location(ast.For(target=g.target, iter=g.iter, body=[inner], orelse=block(list(otherwise)), type_comment=None), s)
+        for m in ast.walk(g.target):
+            if isinstance(m, ast.Name):
+                m.ctx = ast.Store()
+        changed[0] = True
+        return loop
+
+    def block(body):
+        out = []
+        for s in body:
+            if isinstance(s, ast.If):
+                # a break/continue in the arms would bind to the new loop
+                arms = s.body + s.orelse
+                if not any(isinstance(m, (ast.Break, ast.Continue)) for a in arms for m in ast.walk(a)):
+                    r = conv(s)
+                    if r is not None:
+                        out.append(r)
+                        continue
+            for fld in ("body", "orelse", "finalbody"):
+                sub = getattr(s, fld, None)
+                if isinstance(sub, list) and sub and isinstance(sub[0], ast.stmt) and not isinstance(s, (ast.FunctionDef, ast.AsyncFunctionDef, ast.ClassDef)):
+                    setattr(s, fld, block(sub))
+            if isinstance(s, ast.Try):
+                for h in s.handlers:
+                    h.body = block(h.body)
+            out.append(s)
+        return out
+    node.body = block(node.body)
     if not changed[0]:
         return func
     ast.fix_missing_locations(node)
